@@ -23,131 +23,7 @@ func checkC20(p *Prog, r *Report) {
 		r.Undecided("R0", "anchor:api.EntityLocalInterface/FeatureLocalInterface", "", "interface not found")
 		return
 	}
-	r.Rule("R1", "in every use-case mutator the copy of the use-case data (DataCopy) and the SetData storing the modified copy share one critical section; all mutators use the same lock, and that lock is as wide as the data (package level or owned by the device's node management, never per entity)")
-	r.Rule("R5", "every use-case method keys the data by {Device: own address device, Entity: own address entity}, copies the node-management use-case function, and delegates to the data-model helper of the matching operation")
-	mutators := map[string]string{"AddUseCaseSupport": "AddUseCaseSupport", "RemoveUseCaseSupport": "RemoveUseCaseSupport", "SetUseCaseAvailability": "SetAvailability", "RemoveAllUseCaseSupports": "RemoveUseCaseDataForAddress", "HasUseCaseSupport": "HasUseCaseSupport"}
-	commonLocks := map[string]int{}
-	nMut := 0
-	for _, m := range []string{"AddUseCaseSupport", "RemoveUseCaseSupport", "SetUseCaseAvailability", "RemoveAllUseCaseSupports", "HasUseCaseSupport"} {
-		impls := p.ImplsOf(eli, m)
-		if len(impls) == 0 {
-			r.Undecided("R1", "anchor:"+m, "", "implementation not found")
-			continue
-		}
-		for _, fn0 := range impls {
-			fn := fn0
-			m := m
-			p.InScope(fn, func() {
-				base := FnName(fn)
-				var copyCall, setCall, helperCall *ssa.Call
-				for _, an := range fn.AnonFuncs {
-					forEachCallOwn(an, func(site ssa.CallInstruction) {
-						if c, ok := site.(*ssa.Call); ok {
-							if callee := c.Call.StaticCallee(); callee != nil && callee.Signature.Recv() != nil && isNamed(callee.Signature.Recv().Type(), "model", "NodeManagementUseCaseDataType") {
-								helperCall = c
-							}
-						}
-					})
-				}
-				forEachCall(fn, func(site ssa.CallInstruction) {
-					c, ok := site.(*ssa.Call)
-					if !ok {
-						return
-					}
-					if calleeIsIfaceMethod(&c.Call, fli, "SetData") {
-						setCall = c
-					}
-					if callee := c.Call.StaticCallee(); callee != nil {
-						if reachesIfaceCall(p, callee, fli, "DataCopy", 0, map[*ssa.Function]bool{}) {
-							copyCall = c
-						}
-						if callee.Signature.Recv() != nil && isNamed(callee.Signature.Recv().Type(), "model", "NodeManagementUseCaseDataType") {
-							helperCall = c
-						}
-					}
-					if calleeIsIfaceMethod(&c.Call, fli, "DataCopy") {
-						copyCall = c
-					}
-				})
-				if copyCall == nil || helperCall == nil {
-					r.Fail("R5", base+"|shape", p.Pos(fn.Pos()), fmt.Sprintf("copy call found=%v, data-model helper call found=%v", copyCall != nil, helperCall != nil))
-					return
-				}
-				// R5: helper and key
-				helper := originName(helperCall.Call.StaticCallee())
-				okHelper := helper == mutators[m]
-				// the helper works on the copy
-				okOn := strings.Contains(Path(helperCall.Call.Args[0]), "DataCopy") || valueDerivesFrom(helperCall.Call.Args[0], copyCall) || valueDerivesFrom(substParam(helperCall.Call.Args[0]), copyCall)
-				// key literal
-				keyOK, keyDesc := false, ""
-				if len(helperCall.Call.Args) > 1 {
-					keyOK, keyDesc = addressKeyOK(helperCall.Call.Args[1])
-				}
-				// function constant of the copy and the store
-				fct := ""
-				for _, a := range copyCall.Call.Args {
-					if s, ok := constString(a); ok {
-						fct = s
-					}
-				}
-				r.Check("R5", base+"|helper", okHelper && okOn, p.InstrPos(helperCall), fmt.Sprintf("delegates to %s on the copied data", helper))
-				r.Check("R5", base+"|key", keyOK, p.InstrPos(helperCall), "address key "+keyDesc)
-				r.Check("R5", base+"|function", fct == "nodeManagementUseCaseData", p.InstrPos(copyCall), "copies function "+fct)
-				if m == "HasUseCaseSupport" {
-					r.Check("R1", base+"|read-only", setCall == nil, p.Pos(fn.Pos()), "the query does not store")
-					return
-				}
-				nMut++
-				if setCall == nil {
-					r.Fail("R1", base+"|rmw", p.Pos(fn.Pos()), "no SetData call storing the modified copy")
-					return
-				}
-				// the stored value is the copy, stored under the same function
-				args := callArgs(&setCall.Call)
-				sfct, _ := constString(args[0])
-				okStore := sfct == "nodeManagementUseCaseData" && (valueDerivesFrom(args[1], copyCall) || strings.Contains(Path(args[1]), "DataCopy"))
-				r.Check("R1", base+"|stores-copy", okStore, p.InstrPos(setCall), fmt.Sprintf("SetData(%s, %s)", sfct, Path(args[1])))
-				secs := ls.CommonSections(copyCall, setCall)
-				// a read lock does not exclude another read-modify-write cycle holding the same read lock
-				var wsecs []string
-				for _, sname := range secs {
-					if h, ok := ls.At(copyCall)[sname]; ok && !h.Read {
-						if h2, ok := ls.At(setCall)[sname]; ok && !h2.Read {
-							wsecs = append(wsecs, sname)
-						}
-					}
-				}
-				if len(wsecs) < len(secs) {
-					r.Fail("R1", base+"|write-mode", p.InstrPos(setCall), fmt.Sprintf("the cycle holds %v only in read mode: two cycles can overlap and one update is lost", secs))
-				}
-				secs = wsecs
-				r.Check("R1", base+"|rmw", len(secs) > 0 && instrDominates(copyCall, setCall), p.InstrPos(setCall), fmt.Sprintf("copy at %s and store at %s share the critical sections %v", p.InstrPos(copyCall), p.InstrPos(setCall), secs))
-				for _, s := range secs {
-					commonLocks[s]++
-				}
-				// the lock must be as wide as the data: the use-case data belongs to the device's node management
-				// (shared by all entities), so a lock that is a field of the entity does not exclude the other entities
-				owner := Path(setCall.Call.Value)
-				wide := false
-				for _, s := range secs {
-					if strings.HasPrefix(s, "global:") {
-						wide = true
-					}
-					if i := strings.LastIndex(s, "."); i > 0 && strings.HasPrefix(owner, s[:i]) && s[:i] != "recv" {
-						wide = true // a lock of the object that owns the data (or of an object it is reached through)
-					}
-				}
-				r.Check("R1", base+"|lock-scope", wide, p.InstrPos(setCall), fmt.Sprintf("the cycle works on data of %s under the locks %v: the lock must be shared by every entity of the device (package level, or owned by the device / its node management), not per entity", owner, secs))
-			})
-		}
-	}
-	same := false
-	for _, n := range commonLocks {
-		if n == nMut && nMut >= 4 {
-			same = true
-		}
-	}
-	r.Check("R1", "common-lock", same, "", fmt.Sprintf("locks spanning the cycles: %v over %d mutators", commonLocks, nMut))
+	useCaseCycleRule(p, r, ls, eli, fli, "R1", "R5")
 
 	r.Rule("R2", "no use-case helper writes elements of the lists of the copied data in place (the copy shares them with the store and with snapshots)")
 	o := BuildOwnership(p, "model", "spine", "util")
@@ -663,4 +539,144 @@ func ambiguousKeyRenderers(p *Prog, r *Report, rule string) int {
 		}
 	}
 	return n
+}
+
+// useCaseCycleRule decides the read-modify-write atomicity of the use-case mutators (r1) and, when r5 is given,
+// their key / delegation shape. Shared: C20-R1/R5, C11-O9 (an unlocked cycle lets two appends write the same
+// spare slot of a backing array a snapshot already shares).
+func useCaseCycleRule(p *Prog, r *Report, ls *Lockset, eli, fli *types.Interface, r1, r5 string) {
+	r.Rule(r1, "in every use-case mutator the copy of the use-case data (DataCopy) and the SetData storing the modified copy share one critical section; all mutators use the same lock, and that lock is as wide as the data (package level or owned by the device's node management, never per entity)")
+	if r5 != "" {
+		r.Rule(r5, "every use-case method keys the data by {Device: own address device, Entity: own address entity}, copies the node-management use-case function, and delegates to the data-model helper of the matching operation")
+	}
+	mutators := map[string]string{"AddUseCaseSupport": "AddUseCaseSupport", "RemoveUseCaseSupport": "RemoveUseCaseSupport", "SetUseCaseAvailability": "SetAvailability", "RemoveAllUseCaseSupports": "RemoveUseCaseDataForAddress", "HasUseCaseSupport": "HasUseCaseSupport"}
+	commonLocks := map[string]int{}
+	nMut := 0
+	for _, m := range []string{"AddUseCaseSupport", "RemoveUseCaseSupport", "SetUseCaseAvailability", "RemoveAllUseCaseSupports", "HasUseCaseSupport"} {
+		impls := p.ImplsOf(eli, m)
+		if len(impls) == 0 {
+			r.Undecided(r1, "anchor:"+m, "", "implementation not found")
+			continue
+		}
+		for _, fn0 := range impls {
+			fn := fn0
+			m := m
+			p.InScope(fn, func() {
+				base := FnName(fn)
+				var copyCall, setCall, helperCall *ssa.Call
+				for _, an := range fn.AnonFuncs {
+					forEachCallOwn(an, func(site ssa.CallInstruction) {
+						if c, ok := site.(*ssa.Call); ok {
+							if callee := c.Call.StaticCallee(); callee != nil && callee.Signature.Recv() != nil && isNamed(callee.Signature.Recv().Type(), "model", "NodeManagementUseCaseDataType") {
+								helperCall = c
+							}
+						}
+					})
+				}
+				forEachCall(fn, func(site ssa.CallInstruction) {
+					c, ok := site.(*ssa.Call)
+					if !ok {
+						return
+					}
+					if calleeIsIfaceMethod(&c.Call, fli, "SetData") {
+						setCall = c
+					}
+					if callee := c.Call.StaticCallee(); callee != nil {
+						if reachesIfaceCall(p, callee, fli, "DataCopy", 0, map[*ssa.Function]bool{}) {
+							copyCall = c
+						}
+						if callee.Signature.Recv() != nil && isNamed(callee.Signature.Recv().Type(), "model", "NodeManagementUseCaseDataType") {
+							helperCall = c
+						}
+					}
+					if calleeIsIfaceMethod(&c.Call, fli, "DataCopy") {
+						copyCall = c
+					}
+				})
+				if copyCall == nil || helperCall == nil {
+					r.Fail(orStr(r5, r1), base+"|shape", p.Pos(fn.Pos()), fmt.Sprintf("copy call found=%v, data-model helper call found=%v", copyCall != nil, helperCall != nil))
+					return
+				}
+				// R5: helper and key
+				helper := originName(helperCall.Call.StaticCallee())
+				okHelper := helper == mutators[m]
+				// the helper works on the copy
+				okOn := strings.Contains(Path(helperCall.Call.Args[0]), "DataCopy") || valueDerivesFrom(helperCall.Call.Args[0], copyCall) || valueDerivesFrom(substParam(helperCall.Call.Args[0]), copyCall)
+				// key literal
+				keyOK, keyDesc := false, ""
+				if len(helperCall.Call.Args) > 1 {
+					keyOK, keyDesc = addressKeyOK(helperCall.Call.Args[1])
+				}
+				// function constant of the copy and the store
+				fct := ""
+				for _, a := range copyCall.Call.Args {
+					if s, ok := constString(a); ok {
+						fct = s
+					}
+				}
+				if r5 != "" {
+					r.Check(r5, base+"|helper", okHelper && okOn, p.InstrPos(helperCall), fmt.Sprintf("delegates to %s on the copied data", helper))
+				}
+				if r5 != "" {
+					r.Check(r5, base+"|key", keyOK, p.InstrPos(helperCall), "address key "+keyDesc)
+				}
+				if r5 != "" {
+					r.Check(r5, base+"|function", fct == "nodeManagementUseCaseData", p.InstrPos(copyCall), "copies function "+fct)
+				}
+				if m == "HasUseCaseSupport" {
+					r.Check(r1, base+"|read-only", setCall == nil, p.Pos(fn.Pos()), "the query does not store")
+					return
+				}
+				nMut++
+				if setCall == nil {
+					r.Fail(r1, base+"|rmw", p.Pos(fn.Pos()), "no SetData call storing the modified copy")
+					return
+				}
+				// the stored value is the copy, stored under the same function
+				args := callArgs(&setCall.Call)
+				sfct, _ := constString(args[0])
+				okStore := sfct == "nodeManagementUseCaseData" && (valueDerivesFrom(args[1], copyCall) || strings.Contains(Path(args[1]), "DataCopy"))
+				r.Check(r1, base+"|stores-copy", okStore, p.InstrPos(setCall), fmt.Sprintf("SetData(%s, %s)", sfct, Path(args[1])))
+				secs := ls.CommonSections(copyCall, setCall)
+				// a read lock does not exclude another read-modify-write cycle holding the same read lock
+				var wsecs []string
+				for _, sname := range secs {
+					if h, ok := ls.At(copyCall)[sname]; ok && !h.Read {
+						if h2, ok := ls.At(setCall)[sname]; ok && !h2.Read {
+							wsecs = append(wsecs, sname)
+						}
+					}
+				}
+				if len(wsecs) < len(secs) {
+					r.Fail(r1, base+"|write-mode", p.InstrPos(setCall), fmt.Sprintf("the cycle holds %v only in read mode: two cycles can overlap and one update is lost", secs))
+				}
+				secs = wsecs
+				r.Check(r1, base+"|rmw", len(secs) > 0 && instrDominates(copyCall, setCall), p.InstrPos(setCall), fmt.Sprintf("copy at %s and store at %s share the critical sections %v", p.InstrPos(copyCall), p.InstrPos(setCall), secs))
+				for _, s := range secs {
+					commonLocks[s]++
+				}
+				// the lock must be as wide as the data: the use-case data belongs to the device's node management
+				// (shared by all entities), so a lock that is a field of the entity does not exclude the other entities
+				owner := Path(setCall.Call.Value)
+				wide := false
+				for _, s := range secs {
+					if strings.HasPrefix(s, "global:") {
+						wide = true
+					}
+					if i := strings.LastIndex(s, "."); i > 0 && strings.HasPrefix(owner, s[:i]) && s[:i] != "recv" {
+						wide = true // a lock of the object that owns the data (or of an object it is reached through)
+					}
+				}
+				r.Check(r1, base+"|lock-scope", wide, p.InstrPos(setCall), fmt.Sprintf("the cycle works on data of %s under the locks %v: the lock must be shared by every entity of the device (package level, or owned by the device / its node management), not per entity", owner, secs))
+			})
+		}
+	}
+	same := false
+	for _, n := range commonLocks {
+		if n == nMut && nMut >= 4 {
+			same = true
+		}
+	}
+	r.Check(r1, "common-lock", same, "", fmt.Sprintf("locks spanning the cycles: %v over %d mutators", commonLocks, nMut))
+
 }
